@@ -101,9 +101,9 @@ macro_rules! segment_h {
             let out = fh::build_media_segment(samples, seq, base, 90000);
             let v = snap::<$total>(&out);
             check_segment::<$n>(&v, seq, base, &pts, &dts, &sync, &tags, true);
-            kani::cover!($n < 2 || dts[0] == dts[1], "equal DTS");
-            kani::cover!(pts[0] < dts[0], "negative composition offset");
-            kani::cover!(!sync[0], "non-sync sample");
+            crate::vcover!($n < 2 || dts[0] == dts[1], "equal DTS");
+            crate::vcover!(pts[0] < dts[0], "negative composition offset");
+            crate::vcover!(!sync[0], "non-sync sample");
         });
     };
 }
@@ -165,8 +165,8 @@ macro_rules! write_step_h {
                     assert!(before == after, "a rejected write queues nothing and changes nothing");
                 }
             }
-            kani::cover!(r.is_ok() && last == Some(d), "accepted equal DTS");
-            kani::cover!(r.is_err(), "rejected");
+            crate::vcover!(r.is_ok() && last == Some(d), "accepted equal DTS");
+            crate::vcover!(r.is_err(), "rejected");
             core::mem::forget((m, r));
         });
     };
@@ -186,7 +186,7 @@ h!(c10_flush_empty, 8, {
     assert!(r.is_none(), "flushing an empty queue yields no segment");
     assert!(fh::digest(&m) == before, "and consumes no sequence number / changes nothing");
     assert!(!m.ready_to_flush() && m.current_fragment_duration_ms() == 0);
-    kani::cover!(true, "reached");
+    crate::vcover!(true, "reached");
     core::mem::forget(m);
 });
 
@@ -224,7 +224,7 @@ macro_rules! flush_step_h {
                     assert!(after.base_media_decode_time == dts[$k - 1] + d, "constant spacing: next base time = last DTS + frame interval");
                 }
             }
-            kani::cover!($k < 2 || dts[1] > dts[0], "distinct DTS");
+            crate::vcover!($k < 2 || dts[1] > dts[0], "distinct DTS");
             core::mem::forget((m, seg));
         });
     };
@@ -252,7 +252,7 @@ h!(c11_base_monotone_k2, 8, {
     let mut m = state::<2>(dts, 1, base, Some(dts[1]), 90000, 2000);
     let r = m.flush_segment();
     assert!(fh::digest(&m).base_media_decode_time >= base, "base decode time never moves backwards");
-    kani::cover!(true, "reached");
+    crate::vcover!(true, "reached");
     core::mem::forget((m, r));
 });
 
@@ -270,15 +270,15 @@ h!(c10_ready_k2, 8, {
     assert!(got * 90 <= span && span < (got + 1) * 90, "fragment duration in ms");
     assert!(m.ready_to_flush() == (got >= target as u128), "ready iff >= 2 samples and span >= target");
     assert!(fh::digest(&m) == before, "queries do not change the state");
-    kani::cover!(m.ready_to_flush(), "ready");
-    kani::cover!(!m.ready_to_flush(), "not ready");
+    crate::vcover!(m.ready_to_flush(), "ready");
+    crate::vcover!(!m.ready_to_flush(), "not ready");
     core::mem::forget(m);
 });
 //@ prop=C10 tier=quick cost=30 fns="fragmented::FragmentedMuxer::ready_to_flush,current_fragment_duration_ms" bound="1 queued sample, any scalars" unwind=8
 h!(c10_ready_k1, 8, {
     let m = state::<1>([kani::any()], kani::any(), kani::any(), kani::any(), kani::any(), kani::any());
     assert!(!m.ready_to_flush() && m.current_fragment_duration_ms() == 0, "a lone sample is never ready");
-    kani::cover!(true, "reached");
+    crate::vcover!(true, "reached");
     core::mem::forget(m);
 });
 
@@ -304,6 +304,6 @@ h!(c11_init_stable, 640, {
     assert!(sa == sb, "byte-identical on every request");
     assert!(d1.queued == d0.queued && d1.sequence_number == d0.sequence_number && d1.base_media_decode_time == d0.base_media_decode_time && d1.last_dts == d0.last_dts, "init_segment does not disturb muxing state");
     assert!(d2 == d1);
-    kani::cover!(n > 0, "reached");
+    crate::vcover!(n > 0, "reached");
     core::mem::forget((m, a, b));
 });
